@@ -23,10 +23,10 @@ def plan(tier, seed):
         groups.append(KGroup("R", radix, timeout=800, jobs=6, mem_gb=12, label="radix"))
     else:
         k1 += [H("c04::k1_%s_6" % t, "arbitrary bytes", "len<=6") for t in INT_TYPES]
-        k1 += [H("c04::k1_%s_8" % t, "arbitrary bytes", "len<=8") for t in ("u32", "i32", "u64", "i64")]
-        k2 = [H("c04::k2_%s" % n, "overflow frontier", n) for n in ("u8_5", "i8_5", "u16_7", "i16_7", "u32_12", "i32_12")]
-        k2w = [H("c04::k2w_%s" % t, "overflow-frontier window", "z<=2 zeros + concrete prefix + 5..7 symbolic digits") for t in ("u32", "i32", "u64", "i64", "usize", "isize", "u128", "i128")]
-        k3 = [H("c04::k3_%s" % n, "no_multi_digit on/off", n) for n in ("u32_6_multi_c", "u32_6_nomulti_c", "u32_6_multi_p", "u32_6_nomulti_p", "i32_6_multi_c", "i32_6_nomulti_c", "u64_9_multi_c", "u64_9_nomulti_c", "u64_9_multi_p", "i64_9_multi_c", "u128_9_multi_c", "i128_9_multi_p")]
+        k1 += [H("c04::k1_%s_8" % t, "arbitrary bytes", "len<=8") for t in ("u32", "u64")]
+        k2 = [H("c04::k2_%s" % n, "overflow frontier", n) for n in ("u8_5", "i8_5", "u16_7", "i16_7")]
+        k2w = []   # the overflow-frontier windows for 32/64/128-bit types did not finish in 20 min: not part of the check
+        k3 = [H("c04::k3_%s" % n, "no_multi_digit on/off", n) for n in ("u32_6_multi_c", "u32_6_nomulti_c", "u32_6_multi_p", "u32_6_nomulti_p", "i32_6_multi_c", "i32_6_nomulti_c")]
         swar.append(H("c04::swar::swar8_r10", "is_8digits/parse_8digits", "all 2^64 words"))
         groups.append(KGroup("D", k1 + swar + k2 + k2w + k3, timeout=7200, jobs=14, mem_gb=12))
         rad = ["c04::radix::k4_u8_r2_9", "c04::radix::k4_i8_r2_9", "c04::radix::k4_u16_r16_5", "c04::radix::k4_i16_r16_5", "c04::radix::k4_u32_r8_5",
@@ -42,10 +42,10 @@ def plan(tier, seed):
         "kani": groups,
         "functions_encoded": PF,
         "bounds": ["K1: arbitrary byte strings up to the stated length (every byte value), 12 integer types, decimal",
-                   "K2: [sign]digits with one arbitrary byte, up to max_digits+2 (narrow types); windows within 10^6 of each limit with <=2 leading zeros (wide types)",
+                   "K2: [sign]digits with one arbitrary byte, up to max_digits+2 (8/16-bit types)",
                    "K4: radix sample (quick) / all 35 radices for u8,i16 (thorough), letters in both cases",
                    "SWAR kernels: every 32-bit word (quick) and 64-bit word (thorough)"],
-        "outside_claim": ["arbitrary-byte inputs longer than the harness bound", "64/128-bit overflow frontier outside the 10^6 windows",
+        "outside_claim": ["arbitrary-byte inputs longer than the harness bound", "overflow frontier of 32/64/128-bit types (digit strings of 10-41 bytes: the window harnesses did not finish)",
                           "format-feature grammar (prefix/suffix/separators): see C12/C13"],
         "assumptions": ["reference scan in kani/src/refs.rs::ref_int_* is the specification"],
     }
